@@ -73,7 +73,8 @@ let show_structure (evs : Model.event list) : Stdlib.String.t =
   Printf.sprintf "footers=%s pages=%s kv=%s" (if st = [] then "_" else footers) (hex_of_n (Model.count_pages evs)) kv
 
 let resets = [ "current", Model.lreset; "pinned-aliasing", Model.lreset_pinned;
-               "pinned-ordinal", Model.lreset_pinned_ordinal; "pinned-kv", Model.lreset_pinned_kv ]
+               "pinned-ordinal", Model.lreset_pinned_ordinal; "pinned-kv", Model.lreset_pinned_kv;
+               "pinned-plain", Model.lreset_pinned_plain ]
 
 let () =
   (* c17.run cfg kv ops -> structure of what the current sink received *)
